@@ -47,6 +47,7 @@ struct GenOpts {
   double utilLo = 0.05, utilHi = 1.3;
   bool globalDomain = false;  // C06 domain: rows >= 4 row-heights wide, >= 1 movable cell of positive area
   bool singleRowOnly = false;
+  bool unitRows = false;    // rows one unit high: tiny cells, total movable area comparable to the number of cells
   bool zeroAreaMovable = false;  // C06: movable cells of zero area are allowed next to >= 1 cell of positive area
 };
 
@@ -90,6 +91,7 @@ inline Circuit genCircuit(Rng &r, const GenOpts &o, GenInfo *info = nullptr) {
   int unit = 1;
   if (o.scaleShift > 0) unit = (int)r.in(1LL << std::max(0, o.scaleShift - 1), 1LL << o.scaleShift);
   int H = (int)r.pick(std::vector<int>{1, 2, 2, 3, 4, 8}) * unit;
+  if (o.unitRows) H = unit;
   int nLevels = (int)r.in(1, 5);
   int ox = (int)r.in(-20, 20) * unit, oy = (int)r.in(-10, 10) * H;
   if (r.chance(0.3)) {
